@@ -118,14 +118,13 @@ inductive CheckRes where
   | ok
   | missing (fn op : String)        -- "function %s for %s operator does not exist in environment"
   | badSignature (fn op : String)   -- "function %s for %s operator does not have a correct signature"
-  | panic (fn op : String)          -- nil `reflect.Type` dereferenced
   deriving Repr, Inhabited, DecidableEq
 
 def checkFn (types : List (String × FnTag)) (op fn : String) : CheckRes :=
   match types.lookup fn with
   | none => .missing fn op
   | some t =>
-    if !t.hasType then .panic fn op
+    if !t.hasType then .missing fn op        -- `fnType.Type == nil` (ambiguous name, nil map value)
     else if !t.isFunc then .missing fn op
     else if t.numIn != (if t.method then 3 else 2) || t.numOut != 1 then .badSignature fn op
     else .ok
